@@ -170,6 +170,10 @@ def expand(model, ref, depth=2, exclude=()):
     fn = model.func(ref)
     cls = qual.split(".")[0] if "." in qual else None
     table = _callee_table(model, rel, cls)
+    # closures defined inside the function are helpers too
+    for n in ast.walk(fn):
+        if n is not fn and isinstance(n, ast.FunctionDef):
+            table.setdefault(n.name, n)
     table = {k: v for k, v in table.items() if v is not fn and v.name not in exclude}
     new = copy.copy(fn)
     new.body = _expand_stmts(list(fn.body), table, depth, frozenset({fn.name}))
